@@ -32,7 +32,8 @@ SETTINGS = ["form_title", "form_id", "id_string", "version", "default_language",
 SETVALS = ["x", "yes", "no", "true", "1", "a b", "English (en)", "fr", "concat({r}, 'x')", 'p="http://x.y" q="http://z"', "p=http", "", "http://h/x", "pages", "theme-grid", "no_such"]
 ENT_COLS = ["dataset", "list_name", "label", "entity_id", "create_if", "update_if", "repeat", "wat"]
 TEXTS = ["Label", "text with {r}", "<b>x</b>", "a & b", "", None, "é ü", "tab\there", "  padded  ", "{r}", "1", "x" * 70,
-         "a ]]> b", "]]> {r}", "x > y", "<!-- c --> {r}", "&amp; {r}", "a < {r}", "q \" ' {r}", "instance('L')/root/item[name > {r}]/label"]
+         "a ]]> b", "]]> {r}", "x > y", "<!-- c --> {r}", "&amp; {r}", "a < {r}", "q \" ' {r}", "instance('L')/root/item[name > {r}]/label",
+         "50% sure", "100%", "%(other)s", "100 %d", "%s", "%(name)s and %(label)s", "%%"]
 
 
 def _fill(rnd, s):
